@@ -203,7 +203,7 @@ def observable(events, status):
         obs.append((k, v))
         if k == 'f' and v in TERMINAL:
             return obs, 'ended'
-    return obs, {'cycle': 'diverges', 'halt': 'halted', 'fuel': 'fuel', 'fault': 'fault'}.get(status, status)
+    return obs, {'cycle': 'forever', 'halt': 'halted', 'fuel': 'fuel', 'fault': 'fault'}.get(status, status)
 
 
 def run(lines, args=(), **kw):
